@@ -504,7 +504,8 @@ func busy(stack string) bool {
 
 func settle() bool {
 	wheel.RemoveTimer(sentinel)
-	return hx.Quiesce(busy, 5*time.Second)
+	// (generous: on a machine with a load of 150 the cleaner's goroutines were starved for more than 5 s)
+	return hx.Quiesce(busy, 30*time.Second)
 }
 
 func padder(n int) *redis.Redis {
